@@ -63,6 +63,30 @@ instance {α : Type} [Codec α] : Codec (Option α) :=
        | [] => none,
    fun | none => [0] | some a => 1 :: Codec.enc a⟩
 
+instance : Codec Unit := ⟨fun t => some ((), t), fun _ => []⟩
+def excCode : PyExc → Int
+  | .KeyError => 0 | .ValueError => 1 | .TypeError => 2 | .IndexError => 3 | .ZeroDivisionError => 4
+  | .StopIteration => 5 | .RecursionError => 6 | .Other => 7 | .OutOfFuel => 8
+def encExcept {α : Type} [Codec α] : Except PyExc α → List Int
+  | .ok v => 1 :: Codec.enc v
+  | .error e => [0, excCode e]
+
+-- sets are compared as sets: encoded in the lexicographic order of their elements' encodings
+def lexLt : List Int → List Int → Bool
+  | [], [] => false
+  | [], _ :: _ => true
+  | _ :: _, [] => false
+  | a :: as, b :: bs => if a < b then true else if b < a then false else lexLt as bs
+def insLex (x : List Int) : List (List Int) → List (List Int)
+  | [] => [x]
+  | y :: ys => if lexLt x y then x :: y :: ys else y :: insLex x ys
+instance {α : Type} [DecidableEq α] [Codec α] : Codec (PyRt.Set α) :=
+  ⟨fun t => match (Codec.dec t : Option (List α × List Int)) with
+    | some (l, r) => some (PyRt.Set.ofList l, r)
+    | none => none,
+   fun s => (((PyRt.Set.toList s).length : Int)) ::
+     (((PyRt.Set.toList s).map Codec.enc).foldr insLex []).flatten⟩
+
 def showInts (l : List Int) : String := " ".intercalate (l.map toString)
 def parseInts (s : String) : Option (List Int) :=
   ((s.trim.splitOn " ").filter (· ≠ "")).mapM String.toInt?
@@ -70,14 +94,37 @@ def parseInts (s : String) : Option (List Int) :=
 
 
 # ------------------------------------------------------------------ int-stream codec, Python side
+VAR_INST = {'κ': ('Str',)}     # dict keys are instantiated with strings (keyword names must be strings)
+
+
 def enc(t, v, out):
     k = t[0]
+    if k == 'Var' and t[1] in VAR_INST:
+        return enc(VAR_INST[t[1]], v, out)
     if k == 'Int':
+        if isinstance(v, bool) or not isinstance(v, int):
+            raise ValueError('not an int: %r' % (v,))
         out.append(int(v))
     elif k == 'Bool':
+        if not isinstance(v, bool):
+            raise ValueError('not a bool: %r' % (v,))
         out.append(1 if v else 0)
     elif k == 'Var':                      # abstract items: instantiated with Int
         out.append(int(v))
+    elif k == 'Unit':
+        if v is not None:
+            raise ValueError('not None: %r' % (v,))
+    elif k == 'Dict':
+        out.append(len(v))
+        for kk, x in v.items():
+            enc(t[1], kk, out)
+            enc(t[2], x, out)
+    elif k == 'Set':
+        if not isinstance(v, (set, frozenset)):
+            raise ValueError('not a set: %r' % (v,))
+        out.append(len(v))
+        for e in sorted(canon(t[1], x) for x in v):
+            out.extend(e)
     elif k == 'Str':
         out.append(len(v))
         out.extend(ord(c) for c in v)
@@ -110,8 +157,16 @@ def canon(t, v):
 def lean_type(t):
     """Lean type text with type variables instantiated to Int"""
     k = t[0]
+    if k == 'Var' and t[1] in VAR_INST:
+        return lean_type(VAR_INST[t[1]])
     if k == 'Var':
         return 'Int'
+    if k == 'Unit':
+        return 'Unit'
+    if k == 'Dict':
+        return '(PyRt.Dict %s %s)' % (lean_type(t[1]), lean_type(t[2]))
+    if k == 'Set':
+        return '(PyRt.Set %s)' % lean_type(t[1])
     if k in ('Int', 'Bool'):
         return k
     if k == 'Str':
@@ -135,6 +190,91 @@ class _Self:
         if self._n < 0:
             raise ValueError('__len__() should return >= 0')
         return self._n
+
+
+def to_py(t, v, in_dict=False):
+    """the Python object for a value of (Lean) type t: dicts are dicts, a product stored in a dict is the
+    mutable fixed-length list the class keeps there"""
+    k = t[0]
+    if k == 'Dict':
+        return {kk: to_py(t[2], x, True) for kk, x in v.items()}
+    if k == 'Prod':
+        parts = [to_py(tt, x) for tt, x in zip(t[1], v)]
+        return parts if in_dict else tuple(parts)
+    if k == 'List':
+        return [to_py(t[1], x) for x in v]
+    if k == 'Set':
+        return set(to_py(t[1], x) for x in v)
+    if k == 'Option':
+        return None if v is None else to_py(t[1], v)
+    return v
+
+
+EXC_CODES = {n: i for i, n in enumerate(py2lean.EXC_NAMES)}
+
+
+def call_method(spec, fn, case):
+    """a method of a class with object state: build the object from the state in `case['self']`, call, read the
+    state back.  -> (('ok', value) | ('exc', class name), state after as {attr: value})"""
+    cls = spec['cls']
+    pycls = fn.__globals__[cls['name']]
+    obj = pycls.__new__(pycls)
+    if cls.get('dict_base'):
+        # a dict subclass whose `.<peer>` is the same class seen from the other side (OneToOne): the object IS
+        # the dict of the `dict_base` field, the peer IS the dict of the other field, and they point at each other
+        peer = pycls.__new__(pycls)
+        base, pa = cls['dict_base'], cls['peer']['attr']
+        other = cls['peer']['swap'][base]
+        dict.update(obj, to_py(py2lean.parse_type(cls['state'][base]), case['self'][base]))
+        dict.update(peer, to_py(py2lean.parse_type(cls['state'][other]), case['self'][other]))
+        setattr(obj, pa, peer)
+        setattr(peer, pa, obj)
+    elif cls.get('paths'):
+        # state fields reached through a path of attributes (`self.inv.data`): built by the class's own __init__
+        obj = pycls()
+        inv_paths = {f: p for p, f in cls['paths'].items()}
+        for a, tt in cls['state'].items():
+            tgt, parts = obj, (inv_paths[a] if a in inv_paths else a).split('.')
+            for part in parts[:-1]:
+                tgt = getattr(tgt, part)
+            setattr(tgt, parts[-1], to_py(py2lean.parse_type(tt), case['self'][a]))
+    else:
+        for a, tt in cls['state'].items():
+            setattr(obj, a, to_py(py2lean.parse_type(tt), case['self'][a]))
+    pos, named = [], {}
+    for p, tt in spec['params'].items():
+        v = to_py(py2lean.parse_type(tt), case[py2lean.mangle(p)])
+        if v is None and cls.get('sentinels') and py2lean.parse_type(tt)[0] == 'Option':
+            continue        # `none` of a parameter whose Python default is an "omitted" marker: omit the argument
+        if len(pos) == len([q for q in spec['params'] if q in named]) == 0 and not named and \
+                len(pos) == list(spec['params']).index(p):
+            pos.append(v)
+        else:
+            named[p] = v
+    kw = dict(named)
+    for kn, kt in spec.get('kwargs', {}).items():
+        kw.update(to_py(py2lean.parse_type(kt), case[kn]))
+    try:
+        with common.time_limit(5):
+            r = fn(obj, *pos, **kw)
+            if spec['kind'] == 'generator':
+                r = list(r)
+        res = ('ok', r)
+    except common.CaseTimeout:
+        res = ('exc', 'CaseTimeout')
+    except Exception as e:  # noqa: BLE001
+        res = ('exc', type(e).__name__)
+    if cls.get('dict_base'):
+        return res, {base: dict(dict.items(obj)), other: dict(dict.items(getattr(obj, pa)))}
+    if cls.get('paths'):
+        out = {}
+        for a in cls['state']:
+            tgt = obj
+            for part in (inv_paths[a] if a in inv_paths else a).split('.'):
+                tgt = getattr(tgt, part)
+            out[a] = tgt
+        return res, out
+    return res, {a: getattr(obj, a) for a in cls['state']}
 
 
 def call_real(spec, fn, args):
@@ -218,7 +358,200 @@ def fam_resolve(rng, quick):
         yield dict(path_parts=[rng.choice(alpha2) for _ in range(rng.randint(0, 9))])
 
 
+TC_KEYS = ['a', 'b', 'c', 'd', 'e', 'f', 'key', '']
+
+
+def _tc_states(rng, quick):
+    """states of a ThresholdCounter: reachable ones (prefixes of random histories run on the real class built by
+    its own __init__) and arbitrary ones (any ints, `_thresh_count` 0 or negative, counts that do not add up)"""
+    import importlib
+    pycls = importlib.import_module('boltons.cacheutils').ThresholdCounter
+
+    def snap(tc):
+        return {'total': tc.total, '_count_map': {k: tuple(v) for k, v in tc._count_map.items()},
+                '_cur_bucket': tc._cur_bucket, '_thresh_count': tc._thresh_count}
+    for _ in range(12 if quick else 120):
+        w = rng.choice([1, 2, 3, 3, 4, 5, 7, 10])
+        tc = pycls(threshold=1.0 / w * 0.999 if w > 1 else 0.99)
+        if tc._thresh_count != w:
+            tc._thresh_count = w
+        keys = rng.sample(TC_KEYS, rng.randint(1, len(TC_KEYS)))
+        yield snap(tc)
+        for _ in range(rng.randint(1, 30)):
+            r = rng.random()
+            if r < 0.7:
+                tc.add(rng.choice(keys))
+            elif r < 0.85:
+                tc.update([rng.choice(keys) for _ in range(rng.randint(0, 4))])
+            else:
+                tc.update({rng.choice(keys): rng.randint(0, 3) for _ in range(rng.randint(0, 3))})
+            yield snap(tc)
+    for _ in range(40 if quick else 400):
+        ks = rng.sample(TC_KEYS, rng.randint(0, 5))
+        yield {'total': rng.randint(-3, 30), '_count_map': {k: (rng.randint(-2, 9), rng.randint(-2, 5)) for k in ks},
+               '_cur_bucket': rng.randint(-1, 6), '_thresh_count': rng.choice([0, 0, 1, 2, 3, -2, 5])}
+
+
+def fam_tc(method):
+    def fam(rng, quick):
+        for st in _tc_states(rng, quick):
+            for _ in range(2):
+                known_ = list(st['_count_map']) or TC_KEYS
+                key = rng.choice(known_) if rng.random() < 0.6 else rng.choice(TC_KEYS)
+                case = {'self': st}
+                if method in ('add', 'getitem', 'contains'):
+                    case['key'] = key
+                elif method == 'get':
+                    case['key'] = key
+                    case['default_'] = rng.choice([0, 0, -1, 7])
+                elif method == 'most_common':
+                    case['n'] = rng.choice([None, None, -1, 0, 1, 2, 3, 50])
+                elif method == 'update_keys':
+                    case['iterable'] = None if rng.random() < 0.2 else \
+                        [rng.choice(TC_KEYS) for _ in range(rng.randint(0, 6))]
+                    case['kwargs'] = {} if rng.random() < 0.5 else \
+                        {rng.choice(TC_KEYS[:7]): rng.randint(-1, 3) for _ in range(rng.randint(1, 3))}
+                elif method == 'update_map':
+                    case['iterable'] = None if rng.random() < 0.2 else \
+                        {rng.choice(TC_KEYS): rng.randint(-1, 4) for _ in range(rng.randint(0, 4))}
+                    case['kwargs'] = {} if rng.random() < 0.5 else \
+                        {rng.choice(TC_KEYS[:7]): rng.randint(-1, 3) for _ in range(rng.randint(1, 3))}
+                yield case
+    return fam
+
+
+OTO_KEYS = ['a', 'b', 'c', 'd', 'e', '']
+
+
+def _oto_states(rng, quick):
+    """states of a OneToOne: reachable ones (random histories on the real class) and arbitrary pairs of dicts
+    that are NOT inverse to each other (the KeyError paths)"""
+    import importlib
+    pycls = importlib.import_module('boltons.dictutils').OneToOne
+    for _ in range(15 if quick else 150):
+        o = pycls()
+        yield {'fwd': dict(o), 'inv': dict(o.inv)}
+        for _ in range(rng.randint(1, 12)):
+            r = rng.random()
+            side = o if rng.random() < 0.7 else o.inv
+            try:
+                if r < 0.6:
+                    side[rng.choice(OTO_KEYS)] = rng.choice(OTO_KEYS)
+                elif r < 0.75:
+                    del side[rng.choice(OTO_KEYS)]
+                elif r < 0.85:
+                    side.pop(rng.choice(OTO_KEYS), None)
+                else:
+                    side.update([(rng.choice(OTO_KEYS), rng.choice(OTO_KEYS)) for _ in range(rng.randint(0, 3))])
+            except KeyError:
+                pass
+            yield {'fwd': dict(o), 'inv': dict(o.inv)}
+    for _ in range(30 if quick else 300):
+        yield {'fwd': {k: rng.choice(OTO_KEYS) for k in rng.sample(OTO_KEYS, rng.randint(0, 4))},
+               'inv': {k: rng.choice(OTO_KEYS) for k in rng.sample(OTO_KEYS, rng.randint(0, 4))}}
+
+
+def fam_oto(method):
+    def fam(rng, quick):
+        for st in _oto_states(rng, quick):
+            for _ in range(2):
+                case = {'self': st}
+                key = rng.choice(list(st['fwd']) or OTO_KEYS) if rng.random() < 0.6 else rng.choice(OTO_KEYS)
+                if method in ('delitem',):
+                    case['key'] = key
+                elif method == 'setitem':
+                    case['key'] = key
+                    case['val'] = rng.choice(list(st['inv']) or OTO_KEYS) if rng.random() < 0.5 else rng.choice(OTO_KEYS)
+                elif method == 'pop':
+                    case['key'] = key
+                    case['default_'] = rng.choice([None, None, 'zz', 'a'])
+                elif method == 'setdefault':
+                    case['key'] = key
+                    case['default_'] = rng.choice(OTO_KEYS)
+                elif method == 'update_pairs':
+                    case['dict_or_iterable'] = [(rng.choice(OTO_KEYS), rng.choice(OTO_KEYS))
+                                                for _ in range(rng.randint(0, 4))]
+                    case['kw'] = {rng.choice(OTO_KEYS[:5]): rng.choice(OTO_KEYS) for _ in range(rng.randint(0, 2))}
+                elif method == 'update_dict':
+                    case['dict_or_iterable'] = {rng.choice(OTO_KEYS): rng.choice(OTO_KEYS)
+                                                for _ in range(rng.randint(0, 4))}
+                    case['kw'] = {rng.choice(OTO_KEYS[:5]): rng.choice(OTO_KEYS) for _ in range(rng.randint(0, 2))}
+                yield case
+    return fam
+
+
+def _m2m_states(rng, quick):
+    import importlib
+    pycls = importlib.import_module('boltons.dictutils').ManyToMany
+
+    def snap(m):
+        return {'data': {k: set(v) for k, v in m.data.items()}, 'inv_data': {k: set(v) for k, v in m.inv.data.items()}}
+    for _ in range(15 if quick else 150):
+        m = pycls()
+        yield snap(m)
+        for _ in range(rng.randint(1, 12)):
+            try:
+                if rng.random() < 0.7:
+                    m.add(rng.choice(OTO_KEYS), rng.choice(OTO_KEYS))
+                else:
+                    m.remove(rng.choice(OTO_KEYS), rng.choice(OTO_KEYS))
+            except KeyError:
+                pass
+            yield snap(m)
+    for _ in range(30 if quick else 300):          # two dicts that are not transposes of each other
+        yield {'data': {k: set(rng.sample(OTO_KEYS, rng.randint(0, 3))) for k in rng.sample(OTO_KEYS, rng.randint(0, 4))},
+               'inv_data': {k: set(rng.sample(OTO_KEYS, rng.randint(0, 3))) for k in rng.sample(OTO_KEYS, rng.randint(0, 4))}}
+
+
+def fam_m2m(method):
+    def fam(rng, quick):
+        for st in _m2m_states(rng, quick):
+            for _ in range(2):
+                case = {'self': st}
+                key = rng.choice(list(st['data']) or OTO_KEYS) if rng.random() < 0.6 else rng.choice(OTO_KEYS)
+                if method in ('add', 'remove'):
+                    vals = sorted(st['data'].get(key, ())) or OTO_KEYS
+                    case.update(key=key, val=rng.choice(vals) if rng.random() < 0.6 else rng.choice(OTO_KEYS))
+                elif method in ('getitem', 'contains'):
+                    case.update(key=key)
+                elif method == 'get':
+                    case.update(key=key, default_=set(rng.sample(OTO_KEYS, rng.randint(0, 2))))
+                elif method == 'update_pairs':
+                    case['iterable'] = [(rng.choice(OTO_KEYS), rng.choice(OTO_KEYS)) for _ in range(rng.randint(0, 4))]
+                elif method == 'update_dict':
+                    case['iterable'] = {rng.choice(OTO_KEYS): rng.choice(OTO_KEYS) for _ in range(rng.randint(0, 4))}
+                yield case
+    return fam
+
+
 FAMILIES = {
+    'ManyToMany.add': fam_m2m('add'),
+    'ManyToMany.remove': fam_m2m('remove'),
+    'ManyToMany.getitem': fam_m2m('getitem'),
+    'ManyToMany.get': fam_m2m('get'),
+    'ManyToMany.contains': fam_m2m('contains'),
+    'ManyToMany.len': fam_m2m('len'),
+    'ManyToMany.update_pairs': fam_m2m('update_pairs'),
+    'ManyToMany.update_dict': fam_m2m('update_dict'),
+    'OneToOne.delitem': fam_oto('delitem'),
+    'OneToOne.setitem': fam_oto('setitem'),
+    'OneToOne.clear': fam_oto('clear'),
+    'OneToOne.pop': fam_oto('pop'),
+    'OneToOne.popitem': fam_oto('popitem'),
+    'OneToOne.setdefault': fam_oto('setdefault'),
+    'OneToOne.update_pairs': fam_oto('update_pairs'),
+    'OneToOne.update_dict': fam_oto('update_dict'),
+    'ThresholdCounter.add': fam_tc('add'),
+    'ThresholdCounter.getitem': fam_tc('getitem'),
+    'ThresholdCounter.len': fam_tc('len'),
+    'ThresholdCounter.contains': fam_tc('contains'),
+    'ThresholdCounter.get': fam_tc('get'),
+    'ThresholdCounter.get_common_count': fam_tc('get_common_count'),
+    'ThresholdCounter.get_uncommon_count': fam_tc('get_uncommon_count'),
+    'ThresholdCounter.iteritems': fam_tc('iteritems'),
+    'ThresholdCounter.most_common': fam_tc('most_common'),
+    'ThresholdCounter.update_map': fam_tc('update_map'),
+    'ThresholdCounter.update_keys': fam_tc('update_keys'),
     'chunk_ranges': fam_chunk_ranges,
     'get_real_index': fam_index,
     'get_apparent_index': fam_index,
@@ -321,6 +654,168 @@ def s_else(xs, k):
     else:
         pos = -pos
     return pos
+
+def r_divmod(a, b):
+    return (a // b, a % b)
+
+def r_index(xs, i):
+    try:
+        return xs[i]
+    except IndexError:
+        return -1
+
+def r_try(xs, i, j):
+    total = 0
+    try:
+        total += xs[i]
+        total += 10 // j
+    except IndexError:
+        total -= 100
+    except ZeroDivisionError:
+        total -= 1000
+    else:
+        total += 1
+    return total
+
+def r_raise(n):
+    if n < 0:
+        raise ValueError('negative: %r' % n)
+    if n == 0:
+        raise KeyError
+    if n == 7:
+        raise TypeError()
+    return n
+
+def r_loop(xs, n):
+    acc = []
+    for i in range(n):
+        try:
+            if xs[i] == 0:
+                continue
+            acc.append(10 // xs[i])
+        except IndexError:
+            break
+    return acc
+
+def r_uncaught(xs, n):
+    acc = 0
+    for i in range(n):
+        try:
+            acc += 10 % xs[i]
+        except ZeroDivisionError:
+            acc -= 1
+    return acc
+
+def r_comp(xs, k):
+    return sum([x * 2 for x in xs if x > k])
+
+def r_sorted(ps, up):
+    if up:
+        return sorted(ps, key=lambda p: p[1])
+    return sorted(ps, key=lambda p: p[1], reverse=True)
+
+def r_enum(xs, start):
+    out = []
+    for i, x in enumerate(xs, start):
+        out.append(i * x)
+    for j, y in enumerate(xs):
+        out.append(j + y)
+    return out
+
+def r_opt(n, xs):
+    if n is not None and n <= 0:
+        return []
+    if n is None or n >= len(xs):
+        return xs
+    return xs[:n]
+
+def w_sum(n):
+    i = 0
+    acc = 0
+    while i < n:
+        acc += i
+        i += 1
+    return acc
+
+def w_drain(xs, lim):
+    out = []
+    rest = list(xs)
+    while rest:
+        top = rest[-1]
+        if top > lim:
+            break
+        out.append(top * 2)
+        rest.pop()
+    else:
+        out.append(-1)
+    return out
+
+def w_gcd(a, b):
+    while b != 0:
+        a, b = b, a % b
+    return a
+
+def w_try(xs, i):
+    total = 0
+    while True:
+        try:
+            total += xs[i]
+        except IndexError:
+            return total
+        i += 1
+
+def w_diverges(n):
+    while n >= 0:
+        n += 1
+    return n
+
+class Box:
+    def put(self, k, v):
+        if k in self.d:
+            self.d[k][0] += v
+        else:
+            self.d[k] = [v, self.n]
+        self.n += 1
+
+    def drop(self, k):
+        self.n -= 1
+        del self.d[k]
+        self.n -= 10
+
+    def bump(self, k, by):
+        try:
+            self.d[k][1] += 100 // by
+        except KeyError:
+            self.n = -1
+            raise ValueError('no such key')
+        return self.d[k][1]
+
+    def firsts(self):
+        return sum([a for a, _ in self.d.values()])
+
+    def view(self):
+        for k in self.d:
+            yield (k, self.d[k][0] + self.d[k][1])
+
+    def big(self, lim):
+        self.d = {k: v for k, v in self.d.items() if v[0] > lim}
+        return len(self.d)
+
+    def fill(self, ks, v):
+        for k in ks:
+            self.put(k, v)
+        return self.firsts()
+
+    def count_down(self, m):
+        if m is not None:
+            if callable(getattr(m, 'items', None)):
+                for k, c in m.items():
+                    self.put(k, c)
+            else:
+                for k in m:
+                    self.put(k, 1)
+        if self.n > 3:
+            self.count_down([])
 '''
 
 SNIPPET_SPECS = [
@@ -337,8 +832,52 @@ SNIPPET_SPECS = [
     {'qualname': 's_strs', 'params': {'parts': 'List Str', 'sep': 'Str'}, 'kind': 'function', 'result': 'List Str'},
     {'qualname': 's_else', 'params': {'xs': 'List Int', 'k': 'Int'}, 'kind': 'function', 'result': 'Int'},
 ]
+SNIPPET_SPECS += [
+    {'qualname': 'r_divmod', 'params': {'a': 'Int', 'b': 'Int'}, 'kind': 'function', 'result': 'Int × Int', 'raises': True},
+    {'qualname': 'r_index', 'params': {'xs': 'List Int', 'i': 'Int'}, 'kind': 'function', 'result': 'Int', 'raises': True},
+    {'qualname': 'r_try', 'params': {'xs': 'List Int', 'i': 'Int', 'j': 'Int'}, 'kind': 'function', 'result': 'Int',
+     'raises': True},
+    {'qualname': 'r_raise', 'params': {'n': 'Int'}, 'kind': 'function', 'result': 'Int', 'raises': True},
+    {'qualname': 'r_loop', 'params': {'xs': 'List Int', 'n': 'Int'}, 'kind': 'function', 'result': 'List Int',
+     'raises': True},
+    {'qualname': 'r_uncaught', 'params': {'xs': 'List Int', 'n': 'Int'}, 'kind': 'function', 'result': 'Int',
+     'raises': True},
+    {'qualname': 'r_comp', 'params': {'xs': 'List Int', 'k': 'Int'}, 'kind': 'function', 'result': 'Int', 'raises': True},
+    {'qualname': 'r_sorted', 'params': {'ps': 'List (Int × Int)', 'up': 'Bool'}, 'kind': 'function',
+     'result': 'List (Int × Int)', 'raises': True},
+    {'qualname': 'r_enum', 'params': {'xs': 'List Int', 'start': 'Int'}, 'kind': 'function', 'result': 'List Int',
+     'raises': True},
+    {'qualname': 'r_opt', 'params': {'n': 'Option Int', 'xs': 'List Int'}, 'kind': 'function', 'result': 'List Int',
+     'raises': True},
+    {'qualname': 'w_sum', 'params': {'n': 'Int'}, 'kind': 'function', 'result': 'Int', 'raises': True,
+     'loop_fuel': True},
+    {'qualname': 'w_drain', 'params': {'xs': 'List Int', 'lim': 'Int'}, 'kind': 'function', 'result': 'List Int',
+     'raises': True, 'loop_fuel': True},
+    {'qualname': 'w_gcd', 'params': {'a': 'Int', 'b': 'Int'}, 'kind': 'function', 'result': 'Int', 'raises': True,
+     'loop_fuel': True},
+    {'qualname': 'w_try', 'params': {'xs': 'List Int', 'i': 'Int'}, 'kind': 'function', 'result': 'Int',
+     'raises': True, 'loop_fuel': True},
+    {'qualname': 'w_diverges', 'params': {'n': 'Int'}, 'kind': 'function', 'result': 'Int', 'raises': True,
+     'loop_fuel': True},
+]
 for _sp in SNIPPET_SPECS:
     _sp.update(module='snippets', lean_name=_sp['qualname'], tie_theorem='-')
+
+BOX = {'name': 'Box', 'lean_name': 'Box', 'tparams': ['κ'], 'deceq': ['κ'],
+       'state': {'d': 'Dict κ (Int × Int)', 'n': 'Int'}}
+SNIPPET_SPECS += srctie_specs._cls_methods(BOX, 'snippets', [
+    {'py': 'put', 'name': 'put', 'params': {'k': 'κ', 'v': 'Int'}, 'result': 'None', 'tie_theorem': '-'},
+    {'py': 'drop', 'name': 'drop', 'params': {'k': 'κ'}, 'result': 'None', 'tie_theorem': '-'},
+    {'py': 'bump', 'name': 'bump', 'params': {'k': 'κ', 'by': 'Int'}, 'result': 'Int', 'tie_theorem': '-'},
+    {'py': 'firsts', 'name': 'firsts', 'params': {}, 'result': 'Int', 'tie_theorem': '-'},
+    {'py': 'view', 'name': 'view', 'params': {}, 'kind': 'generator', 'result': 'κ × Int', 'tie_theorem': '-'},
+    {'py': 'big', 'name': 'big', 'params': {'lim': 'Int'}, 'result': 'Int', 'tie_theorem': '-'},
+    {'py': 'fill', 'name': 'fill', 'params': {'ks': 'List κ', 'v': 'Int'}, 'result': 'Int', 'tie_theorem': '-'},
+    {'py': 'count_down', 'name': 'count_down_keys', 'params': {'m': 'Option (List κ)'}, 'result': 'None',
+     'fuel': True, 'tie_theorem': '-'},
+    {'py': 'count_down', 'name': 'count_down_map', 'params': {'m': 'Option (Dict κ Int)'}, 'result': 'None',
+     'fuel': True, 'tie_theorem': '-'},
+])
 
 
 def _ints(rng, n, lo=-3, hi=6):
@@ -380,6 +919,77 @@ def fam_snippet(name):
             for _ in range(n):
                 yield dict(parts=[rng.choice(['', 'x', '/', 'ab', "'", '\\\\']) for _ in range(rng.randint(0, 6))],
                            sep=rng.choice(['/', '', 'ab']))
+        elif name == 'r_divmod':
+            for a in range(-7, 8):
+                for b in range(-4, 5):
+                    yield dict(a=a, b=b)
+        elif name == 'r_index':
+            for ln in range(0, 5):
+                for i in range(-6, 7):
+                    yield dict(xs=list(range(10, 10 + ln)), i=i)
+        elif name == 'r_try':
+            for ln in range(0, 4):
+                for i in range(-5, 6):
+                    for j in (-3, 0, 1, 20):
+                        yield dict(xs=list(range(10, 10 + ln)), i=i, j=j)
+        elif name == 'r_raise':
+            for a in range(-3, 10):
+                yield dict(n=a)
+        elif name in ('r_loop', 'r_uncaught'):
+            for _ in range(n):
+                yield dict(xs=_ints(rng, rng.randint(0, 5), -2, 3), n=rng.randint(-1, 7))
+        elif name == 'r_comp':
+            for _ in range(n):
+                yield dict(xs=_ints(rng, rng.randint(0, 6)), k=rng.randint(-3, 6))
+        elif name == 'r_sorted':
+            for _ in range(n):
+                yield dict(ps=[(rng.randint(0, 9), rng.randint(0, 3)) for _ in range(rng.randint(0, 7))],
+                           up=rng.random() < 0.5)
+        elif name == 'r_enum':
+            for _ in range(n):
+                yield dict(xs=_ints(rng, rng.randint(0, 5)), start=rng.randint(-2, 3))
+        elif name == 'r_opt':
+            for _ in range(n):
+                yield dict(n=rng.choice([None, None, -1, 0, 1, 2, 3, 9]), xs=_ints(rng, rng.randint(0, 5)))
+        elif name == 'w_sum':
+            for a in range(-2, 60):
+                yield dict(n=a)
+        elif name == 'w_drain':
+            for _ in range(n):
+                yield dict(xs=_ints(rng, rng.randint(0, 7), -3, 9), lim=rng.randint(-3, 9))
+        elif name == 'w_gcd':
+            for a in range(-6, 30):
+                for b in range(-6, 12):
+                    yield dict(a=a, b=b)
+        elif name == 'w_try':
+            for _ in range(n):
+                yield dict(xs=_ints(rng, rng.randint(0, 6)), i=rng.randint(-8, 7))
+        elif name == 'w_diverges':
+            for a in (-5, -1) if quick else (-5, -1, 0):
+                yield dict(n=a)
+        elif name.startswith('Box.'):
+            ks = ['a', 'b', 'c', '']
+            for _ in range(2 * n):
+                st = {'d': {k: (rng.randint(-3, 9), rng.randint(-3, 9)) for k in rng.sample(ks, rng.randint(0, 4))},
+                      'n': rng.randint(-2, 8)}
+                case = {'self': st}
+                m = name[4:]
+                if m in ('put',):
+                    case.update(k=rng.choice(ks), v=rng.randint(-2, 5))
+                elif m == 'drop':
+                    case.update(k=rng.choice(ks))
+                elif m == 'bump':
+                    case.update(k=rng.choice(ks), by=rng.choice([0, 1, 7, -3, 200]))
+                elif m == 'big':
+                    case.update(lim=rng.randint(-3, 9))
+                elif m == 'fill':
+                    case.update(ks=[rng.choice(ks) for _ in range(rng.randint(0, 5))], v=rng.randint(-2, 5))
+                elif m == 'count_down_map':
+                    case.update(m=None if rng.random() < 0.2 else
+                                {k: rng.randint(-1, 4) for k in rng.sample(ks, rng.randint(0, 3))})
+                elif m == 'count_down_keys':
+                    case.update(m=None if rng.random() < 0.2 else [rng.choice(ks) for _ in range(rng.randint(0, 5))])
+                yield case
     return fam
 
 
@@ -393,7 +1003,13 @@ def snippet_functions():
     exec(compile(SNIPPET_SRC, '<snippets>', 'exec'), ns)
     for sp in SNIPPET_SPECS:
         FAMILIES[sp['lean_name']] = fam_snippet(sp['lean_name'])
-    return text, [(sp, 'snippets', ns[sp['qualname']]) for sp in SNIPPET_SPECS]
+
+    def lookup(q):
+        obj = ns[q.split('.')[0]]
+        for part in q.split('.')[1:]:
+            obj = getattr(obj, part)
+        return obj
+    return text, [(sp, 'snippets', lookup(sp['qualname'])) for sp in SNIPPET_SPECS]
 
 
 # ------------------------------------------------------------------ driver
@@ -425,17 +1041,45 @@ def build_driver(pids, repo, snippets=False):
         fns.extend(sfns)
     body.append(CODEC)
     arms = []
+    FUEL = 40
     for n, (spec, short, _) in enumerate(fns):
         tr = _translator(spec)
+        if spec.get('cls') is not None:
+            # a method: the inputs are the state fields, then the parameters; the output is the Except value
+            # (or the plain value), then the fields of the new state when the method changes it
+            cls = spec['cls']
+            fields = [(py2lean.lean_field(a), py2lean.parse_type(t)) for a, t in cls['state'].items()]
+            params = [(pn, pt) for pn, pt in tr.params if pt != ('Obj',)]
+            names = ['f_' + f for f, _ in fields] + ['a_' + pn for pn, _ in params]
+            types = [lean_type(t) for _, t in fields] + [lean_type(t) for _, t in params]
+            argt = types[0] if len(types) == 1 else '(' + ' × '.join(types) + ')'
+            pat = names[0] if len(names) == 1 else '(' + ', '.join(names) + ')'
+            full = 'Src.%s.%s' % (short, spec['lean_name'])
+            st = '{ %s }' % ', '.join('%s := f_%s' % (f, f) for f, _ in fields)
+            call = '(%s %s%s%s %s)' % (full, ('%d ' % FUEL) if tr.fuel else '', '400 ' if tr.loop_fuel else '', st,
+                                       ' '.join('a_' + pn for pn, _ in params))
+            val = 'encExcept r' if tr.raises else 'Codec.enc r'
+            if tr.cls_mut:
+                val = val.replace(' r', ' r.1') + ' ++ ' + ' ++ '.join('Codec.enc r.2.%s' % f for f, _ in fields)
+            arms.append('  | %d :: t => (match (Codec.dec t : Option (%s × List Int)) with\n'
+                        '    | some (%s, []) => let r := %s; showInts ([1] ++ %s)\n'
+                        '    | _ => "bad-args")' % (n, argt, pat, call, val))
+            continue
         names = [p for p, _ in tr.params]
         types = [lean_type(t) for _, t in tr.params]
         argt = types[0] if len(types) == 1 else '(' + ' × '.join(types) + ')'
         pat = names[0] if len(names) == 1 else '(' + ', '.join(names) + ')'
         call = ' '.join(names)
         full = 'Src.%s.%s' % (short, spec['lean_name'])
+        encf = 'encExcept' if tr.raises else 'Codec.enc'
+        if tr.loop_fuel:
+            arms.append('  | %d :: t => (match (Codec.dec t : Option (%s × List Int)) with\n'
+                        '    | some (%s, []) => showInts ([1] ++ encExcept (%s 400 %s))\n'
+                        '    | _ => "bad-args")' % (n, argt, pat, full, call))
+            continue
         arms.append('  | %d :: t => (match (Codec.dec t : Option (%s × List Int)) with\n'
-                    '    | some (%s, []) => showInts (Codec.enc (%s_pre %s) ++ Codec.enc (%s %s))\n'
-                    '    | _ => "bad-args")' % (n, argt, pat, full, call, full, call))
+                    '    | some (%s, []) => showInts (Codec.enc (%s_pre %s) ++ %s (%s %s))\n'
+                    '    | _ => "bad-args")' % (n, argt, pat, full, call, encf, full, call))
     body.append('def handle : List Int → String\n' + '\n'.join(arms) + '\n  | _ => "bad-function"\n')
     body.append('''partial def loop (h : IO.FS.Stream) (out : IO.FS.Stream) : IO Unit := do
   let line ← h.getLine
@@ -459,9 +1103,9 @@ def _translator(spec):
     if spec['module'] == 'snippets':
         tree = ast.parse(SNIPPET_SRC)
         defs = {n.name: n for n in tree.body if isinstance(n, ast.FunctionDef)}
-        return py2lean.FnTranslator(py2lean._find_function(tree, spec['qualname']), spec, defs)
+        return py2lean.FnTranslator(py2lean._find_function(tree, spec['qualname']), spec, defs, tree)
     return py2lean.FnTranslator(py2lean._find_function(_parse(spec['module']), spec['qualname']), spec,
-                                _module_defs(spec['module']))
+                                _module_defs(spec['module']), _parse(spec['module']))
 
 
 def _parse(module_name):
@@ -494,8 +1138,12 @@ def run(pids, quick=False, seed=0, verbose=True, snippets=False):
                 tr_params = f.params
                 rtype = f.R
             toks = [n]
+            if spec.get('cls') is not None:
+                for a, tt in spec['cls']['state'].items():
+                    enc(py2lean.parse_type(tt), case['self'][a], toks)
             for name, t in tr_params:
-                enc(t, case[name], toks)
+                if t != ('Obj',):
+                    enc(t, case[name], toks)
             lines.append(' '.join(map(str, toks)))
             meta.append((spec, fn, case, rtype))
     tmp = tempfile.mkdtemp(prefix='py2lean-selftest-')
@@ -527,8 +1175,55 @@ def run(pids, quick=False, seed=0, verbose=True, snippets=False):
             raise common.InfraError('driver rejected a line: %s for %r' % (got, case))
         toks = [int(x) for x in got.split()]
         pre, val = toks[0], toks[1:]
-        kind, res = call_real(spec, fn, case)
         bad = None
+        if spec.get('cls') is not None:
+            # raising mode: the exception class (or the value) AND the state after the call must agree
+            (kind, res), after = call_method(spec, fn, case)
+            if kind == 'exc' and res == 'CaseTimeout':
+                kind = 'timeout' 
+            try:
+                if kind == 'exc':
+                    r['python_raises'] += 1
+                    want = [0, EXC_CODES.get(res, 7)]
+                    if not spec.get('raises'):
+                        want = None             # total mode: not compared
+                else:
+                    want = ([1] if spec.get('raises') else []) + canon(rtype, res)
+                if want is not None and method_mutates(spec):
+                    for a, tt in spec['cls']['state'].items():
+                        want = want + canon(py2lean.parse_type(tt), after[a])
+            except Exception as e:  # noqa: BLE001
+                want = 'unencodable %r / %r (%s)' % (res, after, e)
+            if want is not None:
+                r['compared'] += 1
+                if kind == 'timeout':
+                    bad = 'Python does not terminate'
+                elif want != val:
+                    bad = 'Python %s %r, state after %r (stream %s) but Lean stream %s' % (kind, res, after, want, val)
+            if bad:
+                r['mismatches'] += 1
+                mismatches.append((spec['lean_name'], case, bad))
+            continue
+        kind, res = call_real(spec, fn, case)
+        if spec.get('raises') and pre != 0:
+            # raising mode: the exception class is part of the result
+            if kind == 'exc':
+                r['python_raises'] += 1
+            r['compared'] += 1
+            try:
+                want = [0, EXC_CODES.get(res, 7)] if kind == 'exc' else [1] + canon(rtype, res)
+            except Exception as e:  # noqa: BLE001
+                want = 'unencodable %r (%s)' % (res, e)
+            if res == 'CaseTimeout':
+                # a loop that does not end: the Lean side must have run out of fuel (and only then)
+                if val != [0, 8]:
+                    bad = 'Python does not terminate but Lean stream %s' % (val,)
+            elif want != val:
+                bad = 'Python %s %r (stream %s) but Lean stream %s' % (kind, res, want, val)
+            if bad:
+                r['mismatches'] += 1
+                mismatches.append((spec['lean_name'], case, bad))
+            continue
         if pre == 0:
             r['pre_false'] += 1
             if kind == 'ok':
@@ -565,6 +1260,14 @@ def run(pids, quick=False, seed=0, verbose=True, snippets=False):
 
 _GUARD_CALLS = {}
 _INLINE_CHECKS = {}
+_MUT = {}
+
+
+def method_mutates(spec):
+    if spec['lean_name'] not in _MUT:
+        _MUT[spec['lean_name']] = _translator(spec).cls_mut
+    return _MUT[spec['lean_name']]
+
 
 
 def _guards_pass(spec, case):
@@ -623,6 +1326,121 @@ REJECT = [
 ]
 
 
+# the boundary of the round-3 subset (raising mode, object state): (name, source, qualname, spec extras)
+_RBOX = {'name': 'B', 'lean_name': 'B', 'tparams': ['κ'], 'deceq': ['κ'],
+         'state': {'d': 'Dict κ (Int × Int)', 'n': 'Int'}}
+_RBOX['methods'] = [
+    {'py': 'put', 'lean_name': 'B.put', 'qualname': 'B.put', 'params': {'k': 'κ'}, 'result': 'Int', 'raises': True,
+     'kind': 'function', 'method': True, 'cls': _RBOX, 'module': 'x'},
+    {'py': 'rec', 'lean_name': 'B.rec', 'qualname': 'B.rec', 'params': {'k': 'κ'}, 'result': 'Int', 'raises': True,
+     'kind': 'function', 'method': True, 'cls': _RBOX, 'module': 'x'}]
+_RBOX2 = {'name': 'B', 'lean_name': 'B', 'tparams': ['κ'], 'deceq': ['κ'],
+          'state': {'d': 'Dict κ (Int × Int)', 'n': 'Int'}}
+_RBOX2['methods'] = [
+    {'py': 'gen', 'lean_name': 'B.gen', 'qualname': 'B.gen', 'params': {}, 'result': 'κ', 'raises': True,
+     'kind': 'generator', 'method': True, 'cls': _RBOX2, 'module': 'x'}]
+_PUT = '    def put(self, k):\n        self.d[k] = [1, 2]\n        return 1\n'
+REJECT2 = [
+    ('a lookup that can raise under `and`', 'def f(xs, i):\n    return i >= 0 and xs[i] > 0\n',
+     'f', {'params': {'xs': 'List Int', 'i': 'Int'}, 'result': 'Bool', 'raises': True}),
+    ('a division that can raise inside a comprehension', 'def f(xs):\n    return [10 // x for x in xs]\n',
+     'f', {'params': {'xs': 'List Int'}, 'result': 'List Int', 'raises': True}),
+    ('try ... finally', 'def f(n):\n    try:\n        return 1 // n\n    finally:\n        pass\n',
+     'f', {'params': {'n': 'Int'}, 'result': 'Int', 'raises': True}),
+    ('except Exception', 'def f(n):\n    try:\n        return 1 // n\n    except Exception:\n        return 0\n',
+     'f', {'params': {'n': 'Int'}, 'result': 'Int', 'raises': True}),
+    ('except ... as e', 'def f(n):\n    try:\n        return 1 // n\n    except ZeroDivisionError as e:\n        return 0\n',
+     'f', {'params': {'n': 'Int'}, 'result': 'Int', 'raises': True}),
+    ('a tuple of exception classes', 'def f(n):\n    try:\n        return 1 // n\n    except (KeyError, ZeroDivisionError):\n        return 0\n',
+     'f', {'params': {'n': 'Int'}, 'result': 'Int', 'raises': True}),
+    ('an exception class outside PyExc', 'def f(n):\n    if n:\n        raise RuntimeError()\n    return n\n',
+     'f', {'params': {'n': 'Int'}, 'result': 'Int', 'raises': True}),
+    ('bare re-raise', 'def f(n):\n    try:\n        return 1 // n\n    except ZeroDivisionError:\n        raise\n',
+     'f', {'params': {'n': 'Int'}, 'result': 'Int', 'raises': True}),
+    ('an exception message that could raise', 'def f(n, xs):\n    if n:\n        raise ValueError(xs[n])\n    return n\n',
+     'f', {'params': {'n': 'Int', 'xs': 'List Int'}, 'result': 'Int', 'raises': True}),
+    ('while loop (raising mode)', 'def f(n):\n    while n > 0:\n        n -= 1\n    return n\n',
+     'f', {'params': {'n': 'Int'}, 'result': 'Int', 'raises': True}),
+    ('while loop inside a for loop', 'def f(n):\n    for i in range(n):\n        while n > 0:\n            n -= 1\n    return n\n',
+     'f', {'params': {'n': 'Int'}, 'result': 'Int', 'raises': True, 'loop_fuel': True}),
+    ('two for clauses in a comprehension', 'def f(xs):\n    return [x + y for x in xs for y in xs]\n',
+     'f', {'params': {'xs': 'List Int'}, 'result': 'List Int', 'raises': True}),
+    ('lambda outside sorted(key=)', 'def f(xs):\n    g = lambda x: x\n    return xs\n',
+     'f', {'params': {'xs': 'List Int'}, 'result': 'List Int', 'raises': True}),
+    ('comprehension variable shadowing a local', 'def f(xs):\n    x = 1\n    return [x for x in xs]\n',
+     'f', {'params': {'xs': 'List Int'}, 'result': 'List Int', 'raises': True}),
+    ('alias of a mutable attribute in a mutating method',
+     'class B:\n    def m(self, k):\n        x = self.d\n        self.d[k] = [1, 2]\n        return len(x)\n',
+     'B.m', {'params': {'k': 'κ'}, 'result': 'Int', 'raises': True, 'cls': _RBOX, 'method': True}),
+    ('an item of a mutable attribute kept across a mutation',
+     'class B:\n    def m(self, k):\n        x = self.d[k]\n        self.d[k][0] += 1\n        return x[0]\n',
+     'B.m', {'params': {'k': 'κ'}, 'result': 'Int', 'raises': True, 'cls': _RBOX, 'method': True}),
+    ('loop over object state that the body changes',
+     'class B:\n    def m(self, k):\n        for j in self.d:\n            self.d[j] = [0, 0]\n        return 1\n',
+     'B.m', {'params': {'k': 'κ'}, 'result': 'Int', 'raises': True, 'cls': _RBOX, 'method': True}),
+    ('loop over object state while a called method changes it',
+     'class B:\n' + _PUT + '    def m(self, k):\n        for j in self.d:\n            self.put(j)\n        return 1\n',
+     'B.m', {'params': {'k': 'κ'}, 'result': 'Int', 'raises': True, 'cls': _RBOX, 'method': True}),
+    ('a state-changing call inside an expression',
+     'class B:\n' + _PUT + '    def m(self, k):\n        return 1 + self.put(k)\n',
+     'B.m', {'params': {'k': 'κ'}, 'result': 'Int', 'raises': True, 'cls': _RBOX, 'method': True}),
+    ('an attribute the spec does not declare',
+     'class B:\n    def m(self, k):\n        return self.zzz\n',
+     'B.m', {'params': {'k': 'κ'}, 'result': 'Int', 'raises': True, 'cls': _RBOX, 'method': True}),
+    ('assignment to an undeclared attribute',
+     'class B:\n    def m(self, k):\n        self.zzz = 1\n        return 1\n',
+     'B.m', {'params': {'k': 'κ'}, 'result': 'Int', 'raises': True, 'cls': _RBOX, 'method': True}),
+    ('a recursive method without fuel',
+     'class B:\n    def rec(self, k):\n        return self.rec(k)\n',
+     'B.rec', {'params': {'k': 'κ'}, 'result': 'Int', 'raises': True, 'cls': _RBOX, 'method': True, 'py': 'rec',
+               'lean_name': 'B.rec'}),
+    ('a call of a method that is not in the spec',
+     'class B:\n    def m(self, k):\n        return self.other(k)\n',
+     'B.m', {'params': {'k': 'κ'}, 'result': 'Int', 'raises': True, 'cls': _RBOX, 'method': True}),
+    ('dict lookup in the total mode',
+     'class B:\n    def m(self, k):\n        return self.d[k][0]\n',
+     'B.m', {'params': {'k': 'κ'}, 'result': 'Int', 'raises': False, 'cls': _RBOX, 'method': True}),
+    ('storing a value into a method of another object',
+     'class B:\n    def m(self, k):\n        self.d[k].append(1)\n        return 1\n',
+     'B.m', {'params': {'k': 'κ'}, 'result': 'Int', 'raises': True, 'cls': _RBOX, 'method': True}),
+    ('a variable index into a fixed-length list',
+     'class B:\n    def m(self, k):\n        return self.d[k][self.n]\n',
+     'B.m', {'params': {'k': 'κ'}, 'result': 'Int', 'raises': True, 'cls': _RBOX, 'method': True}),
+    ('a generator object kept in a variable (one-shot iterator)',
+     'class B:\n    def gen(self):\n        for j in self.d:\n            yield j\n'
+     '    def m(self, k):\n        it = self.gen()\n        return len(list(it)) + len(list(it))\n',
+     'B.m', {'params': {'k': 'κ'}, 'result': 'Int', 'raises': True, 'cls': _RBOX2, 'method': True}),
+    ('a float', 'def f(n):\n    return int(1 / n)\n', 'f', {'params': {'n': 'Int'}, 'result': 'Int', 'raises': True}),
+    ('iteration over a set-valued expression', 'def f(xs):\n    out = []\n    for x in set(xs):\n        out.append(x)\n    return out\n',
+     'f', {'params': {'xs': 'List Int'}, 'result': 'List Int', 'raises': True}),
+    ('use of a possibly-None value without a test', 'def f(n):\n    return n + 1\n',
+     'f', {'params': {'n': 'Option Int'}, 'result': 'Int', 'raises': True}),
+    ('narrowing lost by an assignment', 'def f(n, m):\n    if n is not None:\n        n = m\n        return n + 1\n    return 0\n',
+     'f', {'params': {'n': 'Option Int', 'm': 'Option Int'}, 'result': 'Int', 'raises': True}),
+]
+
+
+def reject_tests2(verbose=True):
+    import ast
+    bad = []
+    for name, src, qual, extra in REJECT2:
+        spec = {'module': 'x', 'qualname': qual, 'lean_name': qual, 'kind': 'function', 'tie_theorem': '-'}
+        spec.update(extra)
+        tree = ast.parse(src)
+        try:
+            fdef = py2lean._find_function(tree, qual)
+            text = py2lean.FnTranslator(fdef, spec, {}, tree).emit()
+            bad.append((name, text))
+        except (py2lean.Unsupported, py2lean._Unknown):
+            pass
+    if verbose:
+        print('subset boundary (raising mode / object state): %d/%d snippets refused' % (
+            len(REJECT2) - len(bad), len(REJECT2)))
+        for name, text in bad:
+            print('ACCEPTED (should be refused): %s\n%s' % (name, text))
+    return len(bad)
+
+
 def reject_tests(verbose=True):
     """every snippet above lies outside the subset: the translator must raise Unsupported, not emit Lean"""
     import ast
@@ -651,7 +1469,7 @@ def main(argv):
         seed = int(argv[argv.index('--seed') + 1])
     pids = [a for a in argv[1:] if a.upper().startswith('C') and a[1:].isdigit()] or sorted(srctie_specs.SPECS)
     try:
-        n = reject_tests()
+        n = reject_tests() + reject_tests2()
         n += run([p.upper() for p in pids], quick, seed, snippets='--no-snippets' not in argv)[0]
     except common.InfraError as e:
         print('infrastructure error: %s' % e)
